@@ -74,7 +74,14 @@ def patch(
             module_name = ".".join(im.split(".")[:-1])
             fn_name = im.split(".")[-1]
             # get module or try to import it if not loaded yet
-            module = sys.modules.get(module_name) or importlib.import_module(module_name)
+            module = sys.modules.get(module_name)
+            if not module:
+                module = importlib.import_module(module_name)
+                # it was imported while the targets above are mocked, so every name it binds them to is a mock,
+                # listed as a target or not: on exit point them all at the originals
+                for name, var in list(module.__dict__.items()):
+                    if id(var) in replaced:
+                        stack.callback(setattr, module, name, replaced[id(var)])
             fn = module.__dict__.get(fn_name)
             assert fn, f"No module var {im}"
 
